@@ -252,4 +252,31 @@ def rule_observation(ck):
         (o.fail('the kernel shuffles its input') if bad else o.ok())
 
 
-RULES = [rule_updates, rule_equivariance, rule_cells, rule_observation]
+def rule_order_sources(ck):
+    """storage order enters nowhere else: regions keep the cell order they are given, the per-catalog kernels leave their inputs
+    untouched (a kernel that normalises its argument in place makes the score of catalog k depend on catalogs 1..k-1), and every
+    synthetic catalog is gridded on the forecast's own region (shared C13-D7)"""
+    from .common import reordering_calls, parameter_writes
+    P = ck.prog
+    ck.clause('D3')
+    for q in ('csep.core.regions.CartesianGrid2D.from_origins', 'csep.core.regions.CartesianGrid2D.__init__', 'csep.core.regions.CartesianGrid2D.from_dict',
+              'csep.core.regions.QuadtreeGrid2D.from_quadkeys'):
+        f = P.func(q)
+        bad = reordering_calls(P, f)
+        o = ck.ob('C20-D3.keeporder', f, 'cells keep the order they are given in', f.node)
+        (o.fail('`%s` reorders (or de-duplicates) the cells while the caller\'s rate rows stay in the caller\'s order' % u(bad[0])[:80]) if bad else o.ok())
+    ck.clause('D2')
+    for mod in ('csep.utils.calc', 'csep.utils.stats'):
+        for f in P.funcs_in(mod):
+            if f.parent is not None or f.cls is not None:
+                continue
+            bad = parameter_writes(P, f)
+            o = ck.ob('C20-D2.inputs', f, 'inputs are not modified', f.node)
+            (o.fail('`%s` writes into an argument of %s: the same array is handed in again for the next catalog / the observation, whose score '
+                    'then depends on what was processed before' % (u(bad[0])[:80], f.short)) if bad else o.ok())
+    from . import c13
+    ck.clause('D1 (shared C13-D7: catalogs gridded on the forecast region)')
+    c13.rule_getters(ck)
+
+
+RULES = [rule_updates, rule_equivariance, rule_cells, rule_observation, rule_order_sources]
